@@ -71,7 +71,16 @@ func Int64(t *rapid.T, label string) int64 {
 // BigInt draws big integers whose magnitudes sit around byte and 8-byte boundaries, both signs.
 func BigInt(t *rapid.T, label string) *big.Int {
 	var x *big.Int
-	switch rapid.IntRange(0, 7).Draw(t, label+"class") {
+	switch rapid.IntRange(0, 8).Draw(t, label+"class") {
+	case 8:
+		// the sizes of RSA moduli and private exponents: 2^(8k) +- d and 2^(8k-1) +- d for 2048 .. 16384 bits
+		k := rapid.SampledFrom([]int{255, 256, 257, 511, 512, 513, 520, 1024, 2048}).Draw(t, label+"K")
+		sh := uint(8 * k)
+		if rapid.Bool().Draw(t, label+"half") {
+			sh--
+		}
+		x = new(big.Int).Lsh(big.NewInt(1), sh)
+		x.Add(x, big.NewInt(rapid.Int64Range(-2, 2).Draw(t, label+"d")))
 	case 0:
 		x = big.NewInt(rapid.Int64Range(-2, 2).Draw(t, label))
 	case 1:
